@@ -29,6 +29,42 @@ static PyObject *BufferType;
         return NULL; \
     }
 
+/*
+ * Parse a single unsigned integer argument and check it fits in `max`.
+ *
+ * The "B", "H", "I" and "K" format units of PyArg_ParseTuple perform no
+ * overflow checking, which silently truncates out-of-range values.
+ */
+static int
+parse_uint_arg(PyObject *args, uint64_t max, const char *error, uint64_t *value)
+{
+    PyObject *arg, *index;
+    unsigned long long v;
+
+    if (!PyArg_ParseTuple(args, "O", &arg))
+        return 0;
+
+    index = PyNumber_Index(arg);
+    if (index == NULL)
+        return 0;
+
+    v = PyLong_AsUnsignedLongLong(index);
+    Py_DECREF(index);
+    if (v == (unsigned long long)-1 && PyErr_Occurred()) {
+        if (!PyErr_ExceptionMatches(PyExc_OverflowError))
+            return 0;
+        PyErr_Clear();
+        PyErr_SetString(PyExc_ValueError, error);
+        return 0;
+    }
+    if (v > max) {
+        PyErr_SetString(PyExc_ValueError, error);
+        return 0;
+    }
+    *value = v;
+    return 1;
+}
+
 static int
 Buffer_init(BufferObject *self, PyObject *args, PyObject *kwargs)
 {
@@ -219,8 +255,8 @@ Buffer_push_bytes(BufferObject *self, PyObject *args)
 static PyObject *
 Buffer_push_uint8(BufferObject *self, PyObject *args)
 {
-    uint8_t value;
-    if (!PyArg_ParseTuple(args, "B", &value))
+    uint64_t value;
+    if (!parse_uint_arg(args, 0xFF, "Integer is out of range for a 8-bit unsigned integer", &value))
         return NULL;
 
     CHECK_WRITE_BOUNDS(self, 1)
@@ -232,8 +268,8 @@ Buffer_push_uint8(BufferObject *self, PyObject *args)
 static PyObject *
 Buffer_push_uint16(BufferObject *self, PyObject *args)
 {
-    uint16_t value;
-    if (!PyArg_ParseTuple(args, "H", &value))
+    uint64_t value;
+    if (!parse_uint_arg(args, 0xFFFF, "Integer is out of range for a 16-bit unsigned integer", &value))
         return NULL;
 
     CHECK_WRITE_BOUNDS(self, 2)
@@ -246,8 +282,8 @@ Buffer_push_uint16(BufferObject *self, PyObject *args)
 static PyObject *
 Buffer_push_uint32(BufferObject *self, PyObject *args)
 {
-    uint32_t value;
-    if (!PyArg_ParseTuple(args, "I", &value))
+    uint64_t value;
+    if (!parse_uint_arg(args, 0xFFFFFFFF, "Integer is out of range for a 32-bit unsigned integer", &value))
         return NULL;
 
     CHECK_WRITE_BOUNDS(self, 4)
@@ -262,7 +298,7 @@ static PyObject *
 Buffer_push_uint64(BufferObject *self, PyObject *args)
 {
     uint64_t value;
-    if (!PyArg_ParseTuple(args, "K", &value))
+    if (!parse_uint_arg(args, 0xFFFFFFFFFFFFFFFF, "Integer is out of range for a 64-bit unsigned integer", &value))
         return NULL;
 
     CHECK_WRITE_BOUNDS(self, 8)
@@ -281,7 +317,7 @@ static PyObject *
 Buffer_push_uint_var(BufferObject *self, PyObject *args)
 {
     uint64_t value;
-    if (!PyArg_ParseTuple(args, "K", &value))
+    if (!parse_uint_arg(args, 0x3FFFFFFFFFFFFFFF, "Integer is too big for a variable-length integer", &value))
         return NULL;
 
     if (value <= 0x3F) {
